@@ -5,6 +5,7 @@ import (
 	"os"
 	"runtime"
 	"sort"
+	"strconv"
 	"strings"
 	"sync"
 	"testing"
@@ -245,7 +246,12 @@ func policyFor(seed uint64) (stickyDen, budget int) {
 	}
 }
 
-var wallLimit = 120 * time.Second
+var wallLimit = func() time.Duration {
+	if v, err := strconv.Atoi(os.Getenv("VERIF_WATCHDOG_S")); err == nil && v > 0 {
+		return time.Duration(v) * time.Second
+	}
+	return 120 * time.Second
+}()
 
 // RunOne executes one run of prop in a fresh synctest bubble.
 //
